@@ -92,11 +92,11 @@ Proof.
   { intros i. rewrite deactivate_buf, Hlb, fes_flush_rt by exact Mlb. rewrite deactivate_rt, Ffes. reflexivity. }
   assert (Hnr : existsb (is_reset m) (x_log s) = false) by (rewrite Hlu; apply (usr_no_reset m m lu Uu)).
   destruct (shut (w_mod (x_w s) m)) as [r|] eqn:Es; cbn [fst snd].
-  - assert (Hreq : req_time now (x_log s ++ cancelled m (cfg sc m) (set_nw (w_mod (x_w s) m) n) ++ [IReset m now (inc (w_mod (x_w s) m) + 1)]) =
+  - assert (Hreq : req_time now (x_log s ++ cancelled m (cfg sc m) (set_nw (w_mod (x_w s) m) n) ++ [IReset m now (inc (w_mod (x_w s) m) + 1)] ++ rpanic (cfg sc m) m) =
                    match r with Some T => Some T | None => None end).
     { unfold req_time. rewrite shut_of_sys_tail, <- Hsh; [destruct r; reflexivity|].
-      apply Forall_app. split; [apply cancelled_sys|constructor; [reflexivity|constructor]]. }
-    cbn [inc set_nw]. split; [|split].
+      apply Forall_app. split; [apply cancelled_sys|constructor; [reflexivity|apply rpanic_sys]]. }
+    cbn [inc set_nw]. rewrite !ifse_fes. split; [|split].
     + intros i Hi. destruct r as [T|]; cbn [w_fes set_fes set_mod]; [rewrite fes_add_rt_other|]; try apply Hfl.
       unfold is_restart. cbn [snd]. apply N.eqb_neq. auto.
     + intros Hx. rewrite !existsb_app in Hx. cbn [existsb is_reset] in Hx. rewrite N.eqb_refl, !orb_true_r in Hx. discriminate.
@@ -512,7 +512,7 @@ Lemma restart_items sc t m w :
 Proof.
   unfold around. set (s := module_restart (nmods sc) (cfg sc m) t m {| x_w := activate t m w; x_log := [] |}).
   unfold buf_process, shutdown_part. destruct (shut _); cbn [snd]; eexists; split; try reflexivity.
-  - apply Forall_app. split; [apply cancelled_sys|constructor; [reflexivity|constructor]].
+  - apply Forall_app. split; [apply cancelled_sys|constructor; [reflexivity|apply rpanic_sys]].
   - constructor.
 Qed.
 
